@@ -12,6 +12,7 @@ from gnpy.core.info import SpectralInformation
 
 from vf import attach, workload as W
 from vf.props import _prop_common as P
+from vf import stock
 
 ID = 'C02'
 RULE = ('generated designed networks (single band, per-degree policies, multiband shipped and generated, OpenROADM, '
@@ -21,14 +22,16 @@ RULE = ('generated designed networks (single band, per-degree policies, multiban
 ASSUMPTIONS = ['monotonicity tolerance 1e-12 relative on the inverse ratios; "unchanged" for amplifier SNR_NLI and '
                'fibre OSNR_ASE means 1e-12 relative, for passive elements and attenuations bit-identical',
                'Raman fibres (which add both ASE and NLI) are only required to be non-improving']
-REQUIRED_COUNTERS = {'element_events': 60, 'passive_identity_checks': 20, 'amplifier_checks': 20, 'fiber_checks': 20,
+REQUIRED_COUNTERS = {'stock_tests_run': 5, 'stock_element_events': 500, 'element_events': 60, 'passive_identity_checks': 20, 'amplifier_checks': 20, 'fiber_checks': 20,
                      'attenuation_ops': 100, 'con_out_differentials': 5}
-CASE_TIMEOUT = {'quick': 120, 'thorough': 300}
+CASE_TIMEOUT = {'quick': 400, 'thorough': 1800}
 
 
 def plan(tier, seed):
     n = 192 if tier == 'quick' else 3000
-    return [{'idx': i, 'kind': 'net', 'flavour': P.flavour(i)} for i in range(n)]
+    cases = [{'idx': i, 'kind': 'net', 'flavour': P.flavour(i)} for i in range(n)]
+    # the repository's own tests as one more workload, with the monitors on
+    return cases + stock.stock_cases(tier, n, ID)
 
 
 def inv(snap):
@@ -152,6 +155,8 @@ def raman_single_pump_differential(ctx, e):
 
 
 def run_case(case, ctx):
+    if case['kind'] == 'stock':
+        return stock.run_stock_case(case, ctx, ID)
     rng = ctx.rng
     scen = P.build_scenario(rng, case['flavour'], ctx)
     if scen is None:
